@@ -365,6 +365,9 @@ fn e2e_crlf_case(prop: &str, idx: u64, tmproot: &std::path::Path) -> CaseRec {
     let cli = take(3);
     let cram = take(2) == 1;
     let (inline, defaults) = if cram { (0, 0) } else { (take(3), take(3)) };
+    // where the observed test case comes from: 0 the document itself, 1 a document given with -P, 2 a document
+    // named by the front-matter `append:` of a (trivial) main document: the command-line layer applies to all of them
+    let via = take(3);
     let dir = tmproot.join(format!("crlf-{idx}"));
     let _ = std::fs::remove_dir_all(&dir);
     std::fs::create_dir_all(dir.join("tmp")).unwrap();
@@ -388,12 +391,31 @@ fn e2e_crlf_case(prop: &str, idx: u64, tmproot: &std::path::Path) -> CaseRec {
     } else if cli == 2 {
         cmd.arg("--no-keep-output-crlf");
     }
-    let out = cmd.arg(&p).current_dir(&dir).env("TMPDIR", dir.join("tmp")).output().expect("run scrut");
+    // the main document when the observed one is prepended / appended: one passing test of the same format
+    let main = dir.join(if cram { "main.t" } else { "main.md" });
+    let trivial = if cram { "M\n  $ echo main\n  main\n".to_string() } else { "# M\n\n```scrut\n$ echo main\nmain\n```\n".to_string() };
+    let observed_index = match via {
+        1 => {
+            std::fs::write(&main, &trivial).unwrap();
+            cmd.arg("-P").arg(&p).arg("--").arg(&main);
+            0
+        }
+        2 if !cram => {
+            std::fs::write(&main, format!("---\nappend: [{}]\n---\n\n{trivial}", p.file_name().unwrap().to_string_lossy())).unwrap();
+            cmd.arg(&main);
+            1
+        }
+        _ => {
+            cmd.arg(&p);
+            0
+        }
+    };
+    let out = cmd.current_dir(&dir).env("TMPDIR", dir.join("tmp")).output().expect("run scrut");
     let stdout = String::from_utf8_lossy(&out.stdout).to_string();
     let json: Option<serde_json::Value> = stdout.find('[').and_then(|p| serde_json::from_str(&stdout[p..]).ok());
     let mut fails = vec![];
     // the recorded stdout of the only test case
-    let recorded = json.as_ref().and_then(|j| j.pointer("/0/output/stdout").and_then(|v| v.as_str()).map(|s| s.to_string()));
+    let recorded = json.as_ref().and_then(|j| j.pointer(&format!("/{observed_index}/output/stdout")).and_then(|v| v.as_str()).map(|s| s.to_string()));
     let want_keep = match (cli, inline, defaults) {
         (1, _, _) => true,
         (2, _, _) => false,
@@ -411,7 +433,7 @@ fn e2e_crlf_case(prop: &str, idx: u64, tmproot: &std::path::Path) -> CaseRec {
     if observed == "?" {
         fails.push(("C16:e2e-no-json".into(), format!("exit {:?}, recorded stdout {:?}: {}", out.status.code(), recorded, String::from_utf8_lossy(&out.stderr).chars().take(300).collect::<String>())));
     } else if (observed == "1") != want_keep {
-        fails.push(("C16:keep-crlf-precedence-e2e".into(), format!("recorded {:?}: keep_crlf in effect is {}, expected {} (cli={cli} inline={inline} defaults={defaults} format={})", recorded, observed == "1", want_keep, if cram { "cram" } else { "markdown" })));
+        fails.push(("C16:keep-crlf-precedence-e2e".into(), format!("recorded {:?}: keep_crlf in effect is {}, expected {} (cli={cli} inline={inline} defaults={defaults} format={} via={})", recorded, observed == "1", want_keep, if cram { "cram" } else { "markdown" }, ["own document", "-P", "front-matter append"][via as usize])));
     }
     let _ = std::fs::remove_dir_all(&dir);
     // model: slot 1 = keep_crlf (1 true, 2 false); format default: Markdown false, Cram true
@@ -428,7 +450,7 @@ fn e2e_crlf_case(prop: &str, idx: u64, tmproot: &std::path::Path) -> CaseRec {
         impl_out: format!("-,{},{},-,-,-,-,-", observed, if cram { "3" } else { "1" }),
         oracle_fail: keep(prop, fails),
         nontrivial: true,
-        tags: vec!["e2e-crlf".into(), format!("e2e-crlf:format={}", if cram { "cram" } else { "md" })],
+        tags: vec!["e2e-crlf".into(), format!("e2e-crlf:format={}", if cram { "cram" } else { "md" }), format!("e2e-crlf:via={via}")],
     }
 }
 
@@ -509,9 +531,9 @@ pub fn run(ctx: &Ctx, prop: &str) {
     std::fs::create_dir_all(&tmproot).unwrap();
     let tr = tmproot.clone();
     ctx.run_stream("e2e-effective-exhaustive", 108, true, |idx| Some(e2e_case(prop, idx, &tr)));
-    // 6. keep_crlf from all four layers: cli x format x (inline x defaults for Markdown) = 3 * 2 * 9 indices (Cram ignores the last two)
+    // 6. keep_crlf from all four layers: cli x format x (inline x defaults for Markdown) x origin of the test case (own / -P / front-matter append) = 3 * 2 * 9 * 3 indices (Cram ignores inline and defaults)
     let tr = tmproot.clone();
-    ctx.run_stream("e2e-keep-crlf-exhaustive", 54, true, |idx| Some(e2e_crlf_case(prop, idx, &tr)));
+    ctx.run_stream("e2e-keep-crlf-exhaustive", 54 * 3, true, |idx| Some(e2e_crlf_case(prop, idx, &tr)));
     let _ = std::fs::remove_dir_all(&tmproot);
 }
 
